@@ -7,8 +7,14 @@ import (
 	"strings"
 )
 
+// getTemplatePath returns the absolute path of a template name
+// relative to the configured template directory
+func getTemplatePath(name string) (string, error) {
+	return filepath.Abs(joinPaths(userConfig.TemplateDir, name) + userConfig.TemplateExt)
+}
+
 func getFullPath(filename string, appendExt bool) (string, error) {
-	if usesTemplates {
+	if usesTemplates.Load() {
 		filename = joinPaths(userConfig.TemplateDir, filename)
 	}
 
